@@ -33,15 +33,42 @@ META = {
 TYPE_TESTS = {"isinstance", "is_list", "is_iterable", "is_empty", "isarray", "is_array", "is_char", "is_number", "is_integer", "is_float", "callable", "issubclass", "hasattr"}
 
 
+def _is_dict_test(e, params):
+    if isinstance(e, ast.Call) and e.args and isinstance(e.args[0], ast.Name) and e.args[0].id in params:
+        if callee_name(e) == "is_dict" or (callee_name(e) == "isinstance" and len(e.args) == 2 and src(e.args[1]) == "dict"):
+            return e.args[0].id
+    return None
+
+
 def _dict_tests(fnode, params):
-    """[(if_stmt, param)] for `if is_dict(p)` / `isinstance(p, dict)` conjunct tests on a parameter"""
+    """[(arm, param)] for the code that runs when a parameter is a dictionary, however the test is spelled:
+    `if is_dict(p): ARM`, `if not is_dict(p): ... else: ARM`, or `if not is_dict(p): <leaves>` followed by ARM.
+    arm is an ast.If-like node (test, body) so that callers can keep treating it as the `if` statement of the arm."""
     out = []
     for n in walk_local(fnode):
-        if isinstance(n, ast.If):
-            for e, pol in split_conj(n.test, True):
-                if pol and isinstance(e, ast.Call) and e.args and isinstance(e.args[0], ast.Name) and e.args[0].id in params:
-                    if callee_name(e) == "is_dict" or (callee_name(e) == "isinstance" and len(e.args) == 2 and src(e.args[1]) == "dict"):
-                        out.append((n, e.args[0].id))
+        if not isinstance(n, ast.If):
+            continue
+        for e, pol in split_conj(n.test, True):
+            p = _is_dict_test(e, params)
+            if p and pol:
+                out.append((n, p))
+        # negative spelling: the whole test is `not <dict test>`
+        neg = split_conj(n.test, False)
+        if len(neg) == 1 and neg[0][1] and _is_dict_test(neg[0][0], params):
+            p = _is_dict_test(neg[0][0], params)
+            body = None
+            if n.orelse:
+                body = n.orelse
+            elif always_exits(n.body):
+                blk = getattr(n, "_parent", None)
+                for fld in ("body", "orelse", "finalbody"):
+                    lst = getattr(blk, fld, None)
+                    if isinstance(lst, list) and n in lst:
+                        body = lst[lst.index(n) + 1:]
+            if body:
+                arm = ast.copy_location(ast.If(test=neg[0][0], body=body, orelse=[]), body[0])
+                arm._parent = getattr(n, "_parent", None)
+                out.append((arm, p))
     return out
 
 
@@ -190,14 +217,23 @@ def check(ctx):
         ifn, p = arms[0]
         gets = [c for n in ifn.body for c in calls_in(n) if isinstance(c.func, ast.Attribute) and c.func.attr == "get" and isinstance(c.func.value, ast.Name) and c.func.value.id == p]
         ok = len(gets) == 1 and len(gets[0].args) == 1 and isinstance(gets[0].args[0], ast.Name) and gets[0].args[0].id in find.params()
-        rets = [x for n in ifn.body for x in walk_local(n) if isinstance(x, ast.Return)]
         shape = False
-        if ok and len(rets) == 1 and isinstance(rets[0].value, ast.IfExp):
-            v = rets[0].value
-            t = v.test
+        if ok:
+            from ..flow import return_alts
             vname = gets[0]._parent.targets[0].id if isinstance(gets[0]._parent, ast.Assign) and isinstance(gets[0]._parent.targets[0], ast.Name) else None
-            isnone = isinstance(t, ast.Compare) and isinstance(t.ops[0], ast.Is) and isinstance(t.comparators[0], ast.Constant) and t.comparators[0].value is None and src(t.left) == vname
-            shape = isnone and src(v.body) == "KLONG_UNDEFINED" and src(v.orelse) == vname
+            inside = {id(x) for n in ifn.body for x in ast.walk(n)}
+            alts = [(facts, v) for facts, v, r in return_alts(find.node) if id(r) in inside]
+
+            def none_pol(facts):
+                for e, pol in facts:
+                    if isinstance(e, ast.Compare) and len(e.ops) == 1 and src(e.left) == vname and isinstance(e.comparators[0], ast.Constant) and e.comparators[0].value is None:
+                        if isinstance(e.ops[0], ast.Is):
+                            return pol
+                        if isinstance(e.ops[0], ast.IsNot):
+                            return not pol
+                return None
+            shape = vname is not None and len(alts) == 2 and {none_pol(f_) for f_, _v in alts} == {True, False} and all(
+                (v is not None and src(v) == "KLONG_UNDEFINED") if none_pol(f_) else (isinstance(v, ast.Name) and v.id == vname) for f_, v in alts)
         ctx.ob("C10-R3", find.fq, "dictionary Find is `v = d.get(key); KLONG_UNDEFINED if v is None else v`", ok and shape, node=ifn, construct="find: missing key -> undefined",
                msg="the dictionary arm of Find no longer maps a missing key to :undefined (or converts the key / value)")
         if ok:
@@ -234,10 +270,18 @@ def check(ctx):
     ctx.instance("C10-R6", each.fq)
     for ifn, p in _dict_tests(each.node, set(each.params())) or []:
         its = [c for n in ifn.body for c in calls_in(n) if isinstance(c.func, ast.Attribute) and c.func.attr == "items" and isinstance(c.func.value, ast.Name) and c.func.value.id == p]
-        comps = [c for n in ifn.body for c in walk_local(n) if isinstance(c, (ast.ListComp, ast.GeneratorExp))]
         fname = each.params()[0]
-        ok = len(its) == 1 and len(comps) == 1 and comps[0].generators[0].iter is its[0] and not comps[0].generators[0].ifs and \
-            sum(1 for c in ast.walk(comps[0].elt) if isinstance(c, ast.Call) and isinstance(c.func, ast.Name) and c.func.id == fname) == 1
+        # the one pass over items(): a comprehension or a for loop whose iterable is that items() call
+        passes = []
+        for n in ifn.body:
+            for c in walk_local(n):
+                if isinstance(c, (ast.ListComp, ast.GeneratorExp)) and its and c.generators[0].iter is its[0] and len(c.generators) == 1:
+                    passes.append(([c.elt], bool(c.generators[0].ifs)))
+                elif isinstance(c, ast.For) and its and c.iter is its[0]:
+                    filtered = any(isinstance(x, (ast.If, ast.Break, ast.Continue, ast.Return)) for b in c.body for x in walk_local(b)) or bool(c.orelse)
+                    passes.append((c.body, filtered))
+        ok = len(its) == 1 and len(passes) == 1 and not passes[0][1] and \
+            sum(1 for b in passes[0][0] for c in ast.walk(b) if isinstance(c, ast.Call) and isinstance(c.func, ast.Name) and c.func.id == fname) == 1
         ctx.ob("C10-R6", each.fq, "Each over a dictionary: one unfiltered pass over items(), one verb application per pair", ok, node=ifn, construct="each over dict visits every pair once")
     if not _dict_tests(each.node, set(each.params())):
         ctx.ob("C10-R6", each.fq, "Each has a dictionary arm", False, node=each.node, construct="each dict arm")
